@@ -95,11 +95,197 @@ def gen_l1fail(rng, n, prefix="f"):
         ops = ["W" + c.hex() for c in ch] + ["E"] + ["W" + b"<p>".hex()] * extra
         yield "L1 %s%d %s ops=%s" % (prefix, i, " ".join("%s=%s" % x for x in kv.items()), ",".join(ops))
 
+# ------------------------------------------------------------------------------------------------
+# level 2: real HtmlRewriter; selectors (string for Rust + structure for the model) and handler scripts
+TAGS = ["a", "b", "div", "p", "span", "ul", "li", "h1", "em", "section", "my-el", "x1"]
+VOIDS = ["br", "img", "input", "hr", "link", "col"]
+ATTRN = ["id", "class", "title", "href", "data-x", "foo", "type", "lang", "TITLE", "Class", "onclick"]
+ATTRV = ["", "a", "b", "x", "a b", "b  a", "a-b", "ab", "A", "x y z", "en-US", "en"]
+CI_ATTRS = {"type", "lang"}          # on the selectors crate's ASCII-case-insensitive HTML attribute list
+
+def hx(b): return (b if isinstance(b, bytes) else b.encode()).hex()
+def zi(v): return ("m%d" % -v) if v < 0 else str(v)
+
+def css_ident(s):
+    return s
+def gen_simple(rng, depth=0):
+    """returns (css string, structure string)"""
+    c = rng.randrange(100)
+    if c < 14:
+        v = rng.choice(["a", "b", "x", "y", "A"]); return ("#" + v, "I" + hx(v))
+    if c < 30:
+        v = rng.choice(["a", "b", "x", "ab"]); return ("." + v, "C" + hx(v))
+    if c < 40:
+        n = rng.choice(ATTRN); return ("[%s]" % n, "E" + hx(n.lower()))
+    if c < 66:
+        n = rng.choice(ATTRN); v = rng.choice(ATTRV + ["a", "b", "x"]); op = rng.choice(["=", "~=", "|=", "^=", "*=", "$="])
+        if v == "" and op in ("~=", "^=", "$=") and rng.randrange(4): v = "a"     # empty operands are a known finding class; keep them rare
+        flag = rng.choice(["", "", "", " i", " s"])
+        opc = {"=": "e", "~=": "i", "|=": "d", "^=": "p", "*=": "s", "$=": "x"}[op]
+        cs = "i" if flag == " i" else ("s" if flag == " s" else ("h" if n.lower() in CI_ATTRS else "s"))
+        return ('[%s%s"%s"%s]' % (n, op, v, flag), "V%s%s:%s:%s" % (opc, cs, hx(n), hx(v)))
+    if c < 80:
+        kind = rng.choice(["nth-child", "nth-of-type", "first-child", "first-of-type"])
+        if kind.startswith("first"):
+            return (":" + kind, ("N" if kind == "first-child" else "O") + "0:1")
+        a = rng.choice([0, 0, 1, 2, 3, -1, -2]); b = rng.choice([0, 1, 2, 3, -1])
+        txt = "%dn%+d" % (a, b)
+        return (":%s(%s)" % (kind, txt), ("N" if kind == "nth-child" else "O") + "%s:%s" % (zi(a), zi(b)))
+    if c < 92 and depth < 2:
+        # :not() with a simple argument, or a list of simple arguments (compound / nested arguments are the
+        # known finding class C04/NotCompoundArg and are generated only by the dedicated family)
+        k = 1 + (rng.randrange(3) == 0)
+        args = [gen_simple_no_not(rng) for _ in range(k)]
+        return (":not(%s)" % ", ".join(a[0] for a in args), "X(%s)" % "!".join(a[1] for a in args))
+    t = rng.choice(TAGS + VOIDS + ["svg", "g", "path"]); return (t, "T" + hx(t))
+def gen_simple_no_not(rng):
+    while True:
+        s = gen_simple(rng, 9)
+        if not s[0].startswith(":not") : return s
+def gen_type(rng):
+    c = rng.randrange(10)
+    if c < 6:
+        t = rng.choice(TAGS + VOIDS + ["svg", "g", "path", "DIV", "Span"]); return (t, "T" + hx(t))
+    if c < 8: return ("*", "A")
+    return ("", "")
+def gen_compound(rng):
+    ty = gen_type(rng)
+    k = rng.randrange(3) if ty[0] else 1 + rng.randrange(2)
+    parts = [gen_simple(rng) for _ in range(k)]
+    parts = [p for p in parts if not p[1].startswith("T")]       # a type selector may only come first
+    if not ty[0] and not parts: return ("*", "A")
+    css = ty[0] + "".join(p[0] for p in parts)
+    st = ".".join(([ty[1]] if ty[1] else []) + [p[1] for p in parts])
+    return (css, st)
+def gen_complex(rng):
+    css, st = gen_compound(rng)
+    for _ in range(rng.choice([0, 0, 1, 1, 2])):
+        c2 = gen_compound(rng)
+        if rng.randrange(2): css += " > " + c2[0]; st += ">" + c2[1]
+        else: css += " " + c2[0]; st += "_" + c2[1]
+    return css, st
+def gen_selector(rng):
+    items = [gen_complex(rng) for _ in range(rng.choice([1, 1, 1, 2]))]
+    return ", ".join(i[0] for i in items), "|".join(i[1] for i in items)
+
+CONTENT = ["<i>x</i>", "A&B", "<", "1>2", "plain", "<!--c-->", "\"q\"", ""]
+def gen_chunk(rng):
+    return rng.choice("ht") + hx(rng.choice(CONTENT))
+def gen_el_ops(rng, observe=False):
+    if observe: return ""
+    ops = []
+    for _ in range(rng.choice([1, 1, 2, 3])):
+        c = rng.randrange(20)
+        if c < 2: ops.append("bf:" + gen_chunk(rng))
+        elif c < 4: ops.append("af:" + gen_chunk(rng))
+        elif c < 6: ops.append("pp:" + gen_chunk(rng))
+        elif c < 8: ops.append("ap:" + gen_chunk(rng))
+        elif c < 9: ops.append("si:" + gen_chunk(rng))
+        elif c < 10: ops.append("rp:" + gen_chunk(rng))
+        elif c < 11: ops.append("rm")
+        elif c < 12: ops.append("rk")
+        elif c < 15: ops.append("sa:%s:%s" % (hx(rng.choice(ATTRN + ["new", "a=b", "", "x y"])), hx(rng.choice(ATTRV + ['say "hi"', "<>&"]))))
+        elif c < 16: ops.append("ra:" + hx(rng.choice(ATTRN)))
+        elif c < 17: ops.append("tn:" + hx(rng.choice(["b", "section", "X", "1a", "a b", "", "my-x"])))
+        elif c < 18: ops.append("oe:(%s)" % "+".join(gen_et_op(rng) for _ in range(rng.choice([0, 1, 2]))))
+        elif c < 19: ops.append(rng.choice(["sb:", "sf:", "sr:"]) + gen_chunk(rng))
+        else: ops.append("sx")
+    return ",".join(ops)
+def gen_et_op(rng):
+    c = rng.randrange(6)
+    if c < 2: return "bf:" + gen_chunk(rng)
+    if c < 4: return "af:" + gen_chunk(rng)
+    if c < 5: return rng.choice(["rm", "rp:" + gen_chunk(rng)])
+    return "sn:" + hx(rng.choice(["b", "zz", "DIV"]))
+def gen_tok_ops(rng, comment, observe=False):
+    if observe: return ""
+    ops = []
+    for _ in range(rng.choice([1, 1, 2])):
+        c = rng.randrange(8)
+        if c < 2: ops.append("bf:" + gen_chunk(rng))
+        elif c < 4: ops.append("af:" + gen_chunk(rng))
+        elif c < 5: ops.append("rp:" + gen_chunk(rng))
+        elif c < 6: ops.append("rm")
+        elif comment: ops.append("st:" + hx(rng.choice(["new", "", "a-->b", "--!>", ">x", "->", "a--b", "-", "ok - ok"])))
+        else: ops.append("bf:" + gen_chunk(rng))
+    return ",".join(ops)
+
+def l2_doc(rng, depth=0, foreign=False):
+    out = b""
+    for _ in range(rng.randrange(1, 5)):
+        c = rng.randrange(20)
+        if c < 8 and depth < 5:
+            t = rng.choice(TAGS + (["g", "path", "link", "col"] if foreign else []))
+            if rng.randrange(12) == 0: t = t.upper()
+            attrs = b""
+            for _ in range(rng.choice([0, 0, 1, 1, 2, 3])):
+                n = rng.choice(ATTRN); v = rng.choice(ATTRV)
+                attrs += b" " + n.encode() + rng.choice([b"", b"=" + (v.replace(" ", "_") or "x").encode(), b'="' + v.encode() + b'"', b"='" + v.encode() + b"'"])
+            sc = b"/" if foreign and rng.randrange(3) == 0 else b""
+            close = rng.randrange(10)
+            out += b"<" + t.encode() + attrs + sc + b">"
+            if not sc:
+                out += l2_doc(rng, depth + 1, foreign)
+                if close < 7: out += b"</" + t.encode() + b">"
+                elif close < 8: out += b"</" + rng.choice(TAGS).encode() + b">"     # stray / mis-nested end tag
+        elif c < 10:
+            out += b"<" + rng.choice(VOIDS).encode() + rng.choice([b"", b"/", b" class=a", b" id=x title=y"]) + b">"
+        elif c < 14:
+            out += rng.choice([b"hello", b"some text ", b"x&amp;y", b"1 < 2", b"\n  ", b"t"])
+        elif c < 15:
+            out += b"<!--" + rng.choice([b"c", b" a-b ", b"", b"x"]) + b"-->"
+        elif c < 16 and not foreign and depth < 4:
+            out += b"<svg>" + l2_doc(rng, depth + 1, True) + rng.choice([b"</svg>", b"</svg>", b""])
+        elif c < 17 and not foreign:
+            out += rng.choice([b"<script>var x='<b>';</script>", b"<style>a>b{}</style>", b"<title>T&lt;</title>", b"<textarea><a></textarea>",
+                               b"<math><mi>x</mi><annotation-xml encoding='text/html'><b>y</b></annotation-xml></math>"])
+        elif c < 18:
+            out += b"</" + rng.choice(TAGS).encode() + b">"
+        else:
+            out += rng.choice([b"<!DOCTYPE html>", b"<p>", b"<li>", b"<?pi?>", b"<![CDATA[x]]>"])
+    return out
+
+def gen_l2(rng, n, profile, prefix):
+    isz = int(open('/verif/build/itemsize.txt').read().strip()) if __import__('os').path.exists('/verif/build/itemsize.txt') else 104
+    for i in range(n):
+        data = l2_doc(rng) if rng.randrange(5) else doc(rng, 8)
+        kv = dict(isz=isz, strict=1 if rng.randrange(8) == 0 else 0)
+        observe = profile in ("match", "fail") or (profile == "mixed" and rng.randrange(3) == 0)
+        toks = []
+        nsel = rng.choice([0, 1, 1, 2, 2, 3, 4]) if profile != "match" else rng.choice([1, 2, 3, 5])
+        for _ in range(nsel):
+            css, st = gen_selector(rng)
+            el = gen_el_ops(rng, observe) if rng.randrange(5) else "-"
+            cm = gen_tok_ops(rng, True, observe) if rng.randrange(4) == 0 else "-"
+            tx = (rng.choice("aln") + ":" + gen_tok_ops(rng, False, observe)) if rng.randrange(4) == 0 else "-"
+            if el == "-" and cm == "-" and tx == "-": el = ""
+            toks.append("sel=%s~%s~%s~%s~%s" % (hx(css), st, el, cm, tx))
+        for _ in range(rng.choice([0, 0, 1, 1, 2])):
+            dt = gen_tok_ops(rng, False, True) if rng.randrange(3) == 0 else "-"
+            if dt != "-" and not observe and rng.randrange(2): dt = "rm"
+            cm = gen_tok_ops(rng, True, observe) if rng.randrange(3) == 0 else "-"
+            tx = (rng.choice("aln") + ":" + gen_tok_ops(rng, False, observe)) if rng.randrange(3) == 0 else "-"
+            en = ";".join(gen_chunk(rng) for _ in range(rng.choice([0, 1, 2]))) if rng.randrange(3) == 0 else "-"
+            toks.append("doc=%s~%s~%s~%s" % (dt, cm, tx, en))
+        if profile == "fail" or (profile == "mixed" and rng.randrange(6) == 0):
+            if rng.randrange(3):
+                kv.update(fail=1 + rng.randrange(12), bh=rng.randrange(2), bm=rng.randrange(2))
+            else:
+                kv.update(mem=rng.choice([0, 50, 100, 200, 400, 832, 900, 1000, 1700, 2000]) + rng.randrange(40), bm=rng.randrange(2), bh=rng.randrange(2))
+            for _ in range(rng.choice([0, 1, 2])):
+                toks.append("bail=" + ";".join(gen_chunk(rng) for _ in range(rng.choice([1, 2]))))
+        ch = chunkings(rng, data)
+        ops = ["W" + c.hex() for c in ch] + ["E"]
+        if profile == "fail" and rng.randrange(2): ops += ["W" + b"<p>".hex()] * rng.randrange(1, 3)
+        yield "L2 %s%d %s %s ops=%s" % (prefix, i, " ".join("%s=%s" % x for x in kv.items()), " ".join(toks), ",".join(ops))
+
 def main():
     fam, seed, n = sys.argv[1], int(sys.argv[2]), int(sys.argv[3])
     rng = random.Random(seed)
     if fam == "l1":
         for l in gen_l1(rng, n): print(l)
+    elif fam in ("l2match", "l2edit", "l2fail", "l2mixed"):
+        for l in gen_l2(rng, n, fam[2:], fam[2] + fam[3]): print(l)
     elif fam == "l1fail":
         for l in gen_l1fail(rng, n): print(l)
     else:
